@@ -558,8 +558,10 @@ func (x *Exec) atReturn(fr *Frame, st *State, rs []Val) {
 				x.emit(fr, st, "lock-balance:"+lockName(k), "lock", atom(sEq(h, pre)), ret)
 			}
 		}
-		if con.HasMod {
+		if con.HasMod && con.Opts["assume-frame"] == "" {
 			x.checkFrame(fr, st, env)
+		} else if con.HasMod {
+			x.note("frame (modifies clause) of " + x.key + " is assumed, not checked (opt assume-frame)")
 		}
 	})
 	c := x.emit(fr, st, "canary:ensures-false", "canary", atom("false"), ret)
